@@ -178,6 +178,17 @@ Theorem C05_fresh :
 Proof. exact fresh_store. Qed.
 Print Assumptions C05_fresh.
 
+(** Two writes of the SAME data under the same key store the same bytes exactly when they used the
+    same nonce: whatever brings the nonce source back to an earlier value (a generator, clock,
+    counter or process in the state it had before) repeats the stored bytes.  The harness pins those
+    surroundings in two processes and compares the stored bytes. *)
+Theorem C05_repeat_iff_nonce_repeats :
+  forall key seal (hash : bytes -> key) c km n1 n2 w,
+    length n1 = NONCE_SIZE -> length n2 = NONCE_SIZE ->
+    (store key seal hash c km n1 w = store key seal hash c km n2 w <-> n1 = n2).
+Proof. exact same_store_iff_same_nonce. Qed.
+Print Assumptions C05_repeat_iff_nonce_repeats.
+
 (** Secrecy, structural part only (PARTIAL).  Full statement: "the underlying filespace never
     contains the plaintext" and "two writes of the same data give different stored bytes" -- the
     first is a confidentiality property of AES-GCM, the second holds except when two random
